@@ -212,6 +212,9 @@ func cmdRun(args []string) int {
 	}
 	declared := declaredObligations(fns)
 	for _, d := range declared {
+		if !w.Thorough && strings.Contains(d, "/T:") {
+			continue // obligation only reachable at the thorough tier's bound
+		}
 		if total.Obligations[d] == nil {
 			vac = append(vac, d+": obligation never reached")
 		}
